@@ -22,7 +22,8 @@ def one(m):
             if "BUILD-FAILED" in err:
                 return (m["_name"], "DOES NOT COMPILE", [err[-800:]])
             if code != 0:
-                bad += [p + ": " + l[:260] for l in out.splitlines() if l.startswith("FAIL rule=") or l.startswith("ANCHOR-LOST")]
+                lines = [p + ": " + l[:260] for l in out.splitlines() if l.startswith("FAIL rule=") or l.startswith("ANCHOR-LOST")]
+                bad += lines or [p + ": CHECK CRASHED / exit %d without a report: %s" % (code, err.strip().splitlines()[-1][:200] if err.strip() else "")]
         return (m["_name"], "silent" if not bad else "FALSE-ALARM", bad)
     finally:
         shutil.rmtree(scratch, ignore_errors=True)
